@@ -30,8 +30,8 @@ RULE = ("grids [8,8,8,8], [7,9,8,10], [10,8,9,7], [9,7,8,8]; process counts 1-8 
         "vpar/flux/phi); plus the checkpoints of the real driver after 1-2 steps.  A stage counts for a class only if the "
         "dimension whose parameter it uses is really distributed in that run.  A class is (stage, which of r|z|v split, iota "
         "class) / (driver, P, steps).")
-ASSUMPTIONS = ["simulated MPI and mpio emulation (self-tested)", "tolerance 1000*eps*scale between decompositions (identical per-slice arithmetic expected)"]
-REQUIRED_EVENTS = {"stage_fields_compared": 1, "init_fields_compared": 1, "driver_files_compared": 1, "r_split_runs": 1, "z_split_runs": 1}
+ASSUMPTIONS = ["ride-along contract: post-condition of every real-valued SplineInterpolator1D.compute_interpolant call during the stage runs (vlib/contracts.py)", "simulated MPI and mpio emulation (self-tested)", "tolerance 1000*eps*scale between decompositions (identical per-slice arithmetic expected)"]
+REQUIRED_EVENTS = {"stage_fields_compared": 1, "init_fields_compared": 1, "driver_files_compared": 1, "r_split_runs": 1, "z_split_runs": 1, "contract_evaluations": 1}
 CASE_TIMEOUT = {"quick": 1200, "thorough": 3000}
 TOLC = 1000.0
 
@@ -83,6 +83,9 @@ def _stages(case):
         return result(SKIP, what="process grid not admissible")
     c = simrun.small_constants(npts, iota=iota, seed=case["seed"] % 1000, dt=1)
     F, eta = _global_state(c, npts, case["seed"])
+    from vlib import contracts
+    contracts.install()
+    contracts.reset()
 
     def make_prog(grid):
         def prog(rank):
@@ -109,6 +112,10 @@ def _stages(case):
             return result(VIOL, cls=["stages/exception"], events=ev, key="C05:exception:%s:%s" % (who, type(err[1]).__name__),
                           what="%s run on grid %r: rank %d raised %r" % (who, nprocs if who == "parallel" else [1, 1], err[0], err[1]), witness=wit)
     ev.update({"stage_fields_compared": 0, "r_split_runs": int(nprocs[0] > 1), "z_split_runs": int(nprocs[1] > 1), "init_fields_compared": 0, "driver_files_compared": 0})
+    ev["contract_evaluations"] = contracts.STATE["evaluations"]
+    if contracts.STATE["violations"]:
+        return result(VIOL, cls=["stages/ride-along-contract"], events=ev, key="C05:ride-along/interpolant-postcondition",
+                      what="during the Strang step on grid %r: %s" % (nprocs, contracts.STATE["violations"][0]), witness=dict(wit, contract=contracts.STATE["violations"]))
     cls = set()
     nst = len(ws.results[0])
     # which dimension's parameter does a stage use?  (a stage counts only if that dimension is really split)
